@@ -34,10 +34,20 @@ def correspond(ck, res, cf, hbin, tag, env=None):
     return impl, model
 
 
+# level currently claimed per property (kept in step with tools/mkmanifest.py); "exploration" = the
+# property theorems are not finished yet: only the correspondence + judge decide
+LEVEL = {"C01": "exploration", "C02": "exploration", "C03": "exploration", "C04": "exploration", "C05": "exploration", "C12": "exploration", "C13": "exploration"}
+def level_of(pid):
+    return LEVEL.get(pid, "proof")
+
+
 def common_front(ck, res, pid, extra_files=(), ties=()):
-    ok = ck.coq_build(res, pid, ties)
+    ok = ck.coq_build(res, pid if os.path.exists(os.path.join(ck.COQ, "Properties", pid + ".v")) else None, ties)
     ck.coq_hygiene(res)
-    ck.coq_property_file(res, pid, extra_files)
+    if os.path.exists(os.path.join(ck.COQ, "Properties", pid + ".v")):
+        ck.coq_property_file(res, pid, extra_files)
+    elif level_of(pid) == "proof":
+        res.broken.append(("proof", "Properties/%s.v" % pid, "property file missing"))
     res.cov["checker_cmd"] = ("python3 tools/translate.py && make -C coq Extract.vo %s Properties/%s.vo (coq_makefile, full .vo) && "
                               "coqc -Q coq ADF coq/Properties/%s.v (Print Assumptions under every theorem)" % (" ".join("Gen/%s.vo" % t for t in ties), pid, pid))
     ck.build_driver(res)
@@ -130,7 +140,7 @@ def check_C20(ck, res, replay):
                        "with the extracted Coq model and judged against the definition of completion/refinement" % (5 if res.tier == "quick" else 7))
     res.cov["samples"] = [cf.meta[c][1][0] for c in list(cf.meta)[-6:]]
     res.extra["order_mismatches"] = mism
-    return ck.finish(res, "proof", ASSUME_COMMON + ["Vec<Term> and usize arithmetic behave as lists and unbounded naturals"])
+    return ck.finish(res, level_of(res.pid), ASSUME_COMMON + ["Vec<Term> and usize arithmetic behave as lists and unbounded naturals"])
 
 
 ASSUME_COMMON = [
@@ -265,12 +275,12 @@ def run_prog_check(ck, res, replay, pid, with_queries, quick_n, thorough_n):
 
 def check_C06(ck, res, replay):
     run_prog_check(ck, res, replay, "C06", False, 1500, 40000)
-    return ck.finish(res, "proof", ASSUME_COMMON + ["HashMap/HashSet = finite maps/sets; usize = unbounded N (no overflow on handles)"])
+    return ck.finish(res, level_of(res.pid), ASSUME_COMMON + ["HashMap/HashSet = finite maps/sets; usize = unbounded N (no overflow on handles)"])
 
 
 def check_C07(ck, res, replay):
     run_prog_check(ck, res, replay, "C07", False, 1500, 40000)
-    return ck.finish(res, "proof", ASSUME_COMMON + ["HashMap/HashSet = finite maps/sets; usize = unbounded N (no overflow on handles)"])
+    return ck.finish(res, level_of(res.pid), ASSUME_COMMON + ["HashMap/HashSet = finite maps/sets; usize = unbounded N (no overflow on handles)"])
 
 
 # ====================================================================== C18 nogood store
@@ -287,6 +297,7 @@ def judge_ng(body, meta, a):
     if a is None or any(l.startswith("PANIC") for l in a):
         return [("panic", "implementation panicked")]
     added = []
+    empties = []
     qi = 0
     answers = {}
     for l in a:
@@ -296,7 +307,10 @@ def judge_ng(body, meta, a):
     for line in body:
         w = line.split()
         if w[0] == "add":
-            added.append(w[1])
+            if set(w[1]) == {"u"}:
+                empties.append(w[1])     # the empty nogood is silently ignored by the code (known finding)
+            else:
+                added.append(w[1])
         elif w[0] in ("concl", "closure", "conclude", "dump"):
             ans = answers.get("q%d" % qi)
             qi += 1
@@ -337,6 +351,8 @@ def judge_ng(body, meta, a):
                 stored = [g for b in (parts[1].split("|") if len(parts) > 1 else []) for g in b.split(",") if g]
                 ex_added = {t for t in totals if any(ng_matches(g, t) for g in added)}
                 ex_store = {t for t in totals if any(ng_matches(g, t) for g in stored)}
+                if empties and ex_added == ex_store:
+                    bad.append(("empty-nogood-ignored", "an added empty nogood (which excludes every assignment) is not represented in the store"))
                 if ex_added != ex_store:
                     d = sorted(ex_added ^ ex_store)[0]
                     bad.append(("forgotten", "mode %s: assignment %s is excluded by the added nogoods %s but not by the store %s (or vice versa)" % (
@@ -370,7 +386,7 @@ def check_C18(ck, res, replay):
         if sum(1 for l in body if l.startswith("add")) >= 3:
             nontriv.add(tuple(body))
         for key, what in judge_ng(body, meta, a):
-            res.violations.append({"key": "ng:" + key + ":" + meta["mode"] if key == "forgotten" else "ng:" + key, "what": what,
+            res.violations.append({"key": ("ng:" + key + ":" + meta["mode"]) if key == "forgotten" else "ng:" + key, "what": what,
                                    "body": body, "meta": meta, "observed": a, "model": b})
         if a != b:
             mism += 1
@@ -385,7 +401,7 @@ def check_C18(ck, res, replay):
     res.cov["samples"] = [cf.meta[c][1] for c in list(cf.meta)[:2]]
     res.extra["mode_distribution"] = dist
     res.extra["model_mismatches"] = mism
-    return ck.finish(res, "proof", ASSUME_COMMON + ["roaring bitmaps = finite sets of positions"])
+    return ck.finish(res, level_of(res.pid), ASSUME_COMMON + ["roaring bitmaps = finite sets of positions"])
 
 
 # ====================================================================== C08 parser
@@ -516,7 +532,7 @@ def check_C08(ck, res, replay):
     res.extra["accepted"] = acc
     res.extra["rejected"] = rej
     res.extra["model_mismatches"] = mism
-    return ck.finish(res, "proof", ASSUME_COMMON + ["nom 7.1 primitives (tag, alt, many1, all_consuming, alphanumeric1 = ASCII, take_until, multispace0) behave as transcribed"])
+    return ck.finish(res, level_of(res.pid), ASSUME_COMMON + ["nom 7.1 primitives (tag, alt, many1, all_consuming, alphanumeric1 = ASCII, take_until, multispace0) behave as transcribed"])
 
 
 # ====================================================================== C13 counts, depth, supports, cubes
@@ -719,7 +735,7 @@ def check_C13(ck, res, replay):
                        "table by path enumeration and truth tables, and compared with the extracted Coq model")
     res.cov["samples"] = [cf.meta[c][1] for c in list(cf.meta)[-2:]]
     res.extra["model_mismatches"] = mism
-    return ck.finish(res, "proof", ASSUME_COMMON + ["usize arithmetic = unbounded N below depth 64 (guard stated in the theorems)"])
+    return ck.finish(res, level_of(res.pid), ASSUME_COMMON + ["usize arithmetic = unbounded N below depth 64 (guard stated in the theorems)"])
 
 
 # ====================================================================== ADF semantics (C01 .. C05)
@@ -869,23 +885,23 @@ def run_adf_check(ck, res, replay, pid, queries_of, n_quick, n_thorough, nmax_q=
 
 def check_C01(ck, res, replay):
     run_adf_check(ck, res, replay, "C01", lambda rng: [["grounded"]], 1500, 30000, nmax_q=8, nmax_t=10)
-    return ck.finish(res, "proof", ASSUME_COMMON)
+    return ck.finish(res, level_of(res.pid), ASSUME_COMMON)
 
 
 def check_C02(ck, res, replay):
     run_adf_check(ck, res, replay, "C02", lambda rng: [["grounded"], ["complete"]], 800, 12000, nmax_q=7, nmax_t=9)
-    return ck.finish(res, "proof", ASSUME_COMMON)
+    return ck.finish(res, level_of(res.pid), ASSUME_COMMON)
 
 
 def check_C03(ck, res, replay):
     run_adf_check(ck, res, replay, "C03", lambda rng: [["stable"], ["stablepre"]] if rng.chance(1, 2) else [["stablepre"], ["stable"]], 1000, 20000, nmax_q=8, nmax_t=10)
-    return ck.finish(res, "proof", ASSUME_COMMON)
+    return ck.finish(res, level_of(res.pid), ASSUME_COMMON)
 
 
 def check_C04(ck, res, replay):
     run_adf_check(ck, res, replay, "C04", lambda rng: [["stmca"], ["stmcb"]] if rng.chance(1, 2) else [["stmcb"], ["stmca"]], 1200, 25000,
                   nmax_q=8, nmax_t=10, tt3_q=3000, tt3_t=60000, ties=("TieLeaf", "TieMoreModels", "TieFlagCount"))
-    return ck.finish(res, "proof", ASSUME_COMMON)
+    return ck.finish(res, level_of(res.pid), ASSUME_COMMON)
 
 
 HEUS = [["Simple"], ["MinModMinPathsMaxVarImp"], ["MinModMaxVarImpMinPaths"], ["Rand"]]
@@ -904,7 +920,7 @@ def ng_queries(rng):
 def check_C05(ck, res, replay):
     run_adf_check(ck, res, replay, "C05", ng_queries, 1500, 30000, nmax_q=7, nmax_t=9, tt3_q=500, tt3_t=20000,
                   ties=("TieLeaf", "TieMoreModels", "TieFlagRand"), seeds=True, case_timeout=8000)
-    return ck.finish(res, "proof", ASSUME_COMMON + ["rand::StdRng is an abstract stream of u64 draws, reproduced by an identically seeded generator in the harness"])
+    return ck.finish(res, level_of(res.pid), ASSUME_COMMON + ["rand::StdRng is an abstract stream of u64 draws, reproduced by an identically seeded generator in the harness"])
 
 
 # ====================================================================== C12 feature configurations
@@ -1016,4 +1032,4 @@ def check_C12(ck, res, replay):
     res.cov["samples"] = [progs[0][0]] if progs else [adfs[0][0]]
     res.extra["feature_sets"] = [t for t, _, _ in FEATURE_SETS]
     res.extra["model_mismatches"] = mism
-    return ck.finish(res, "proof", ASSUME_COMMON + ["cargo feature unification as declared in lib/Cargo.toml (regenerated into Gen/GenFeatures.v)"])
+    return ck.finish(res, level_of(res.pid), ASSUME_COMMON + ["cargo feature unification as declared in lib/Cargo.toml (regenerated into Gen/GenFeatures.v)"])
